@@ -409,6 +409,14 @@ func TestVerifC11(t *testing.T) {
 	defer o.Close()
 	r := vhRand()
 	id := 0
+	// (0) ReadAt calls in flight together on one connection after a read that ended with zero bytes at end of file
+	{
+		ok, valid, detail := vhReadAfterEOFProbe(8)
+		if !valid {
+			t.Fatalf("C11 read-after-EOF probe could not run: %s", detail)
+		}
+		o.Emit(map[string]interface{}{"kind": "filled", "id": -1, "ok": ok, "detail": detail})
+	}
 	// (a) direct: fixed boundary corpus, then random
 	for _, cs := range []uint32{1, 2, 3, 4, 7, 16} {
 		for _, k := range []int{0, 1, 2, 3} {
